@@ -6,8 +6,27 @@ use std::result::Result;
 
 pub const ALPH: &[&str] = &["a", "b", "c", ";", "{", "}", " ", "\n", "\n", "x", "\t", "\r"];
 pub const MB: &[&str] = &["é", "日", "😀"];
+pub const ALPH_NO_NL: &[&str] = &["a", "b", "c", ";", "{", "}", " ", "x", "\t"];
 
+/// a line whose byte length sits on a block boundary (64, 128, …) while its character count does not: multi-byte characters in
+/// the last block, optionally after whole blocks of ASCII (index tables kept per block of characters or bytes: seed S139)
+pub fn boundary_line(rng: &mut Rng) -> String {
+  let mut s = String::new();
+  for _ in 0..*rng.pick(&[0usize, 0, 64, 128]) { s.push_str(ALPH_NO_NL[rng.below(ALPH_NO_NL.len())]); }
+  let target = s.len() + *rng.pick(&[64usize, 64, 63, 65, 128]);
+  while s.len() < target {
+    let left = target - s.len();
+    let c = if left >= 4 && rng.chance(2) { MB[rng.below(3)] } else if left >= 2 && rng.chance(2) { MB[0] } else { ALPH_NO_NL[rng.below(ALPH_NO_NL.len())] };
+    if c.len() <= left { s.push_str(c); }
+  }
+  s
+}
 pub fn text(rng: &mut Rng, maxlen: usize, mb: bool) -> String {
+  if mb && maxlen >= 8 && rng.chance(40) {
+    let mut s = boundary_line(rng);
+    if rng.chance(2) { s.push('\n'); s.push_str(&text(rng, 4, false)); }
+    return s
+  }
   let n = rng.below(maxlen + 1);
   let mut s = String::new();
   for _ in 0..n { if mb && rng.chance(5) { s.push_str(MB[rng.below(3)]) } else { s.push_str(ALPH[rng.below(ALPH.len())]) } }
